@@ -11,6 +11,10 @@ Binding      : in a scratch directory the REAL pipeline is run (pyscf SCF/CC -> 
                judged by spec/PipelineTrace.tla with the same clauses (total verdicts naming the failing clause).
 Exact slice  : lattice models through the custom-integrals path; spec/PipelineLattice.tla (Fock.tla) computes
                <D|H|D>/<D|D> for the hand-made trial determinants and the integer matrix of 2(H-h0) exactly.
+Set-up table : spec/Setup.tla is the option-resolution machine of `_prep_afqmc` (options source, defaults, observable,
+               trial branch, propagator branch, failure precedence); harness/setupopt.py model-checks it over every
+               source x directory x given-option combination and replays TLC's expected records into the real routine
+               in real directories (valid / absent / corrupt files), plus the fixed-point replay of the completed options.
 Python never decides a predicate: it draws seeded inputs, calls pyscf and the library, and converts float
 differences to fixed point.  pyscf is the trusted oracle for molecular SCF/FCI/CC energies.
 """
@@ -23,6 +27,7 @@ from pathlib import Path
 
 import numpy as np
 
+from .. import setupopt
 from ..core import Check, MachineryError, repo_setup
 
 LEVEL = "other"
@@ -749,6 +754,10 @@ def run(chk: Check):
     items += opt_items
     tid += len(opt_items)
 
+    # the whole option-resolution machine of _prep_afqmc (spec/Setup.tla): every options source, directory state
+    # and given-option combination model-checked, a seeded sample + failure factorial replayed into the real routine
+    setupopt.run(chk)
+
     plan = lattice_plan(chk)
     oracle = lattice_oracle(chk, plan)
     nlat = 0
@@ -782,6 +791,9 @@ def run(chk: Check):
 def replay(chk: Check, case):
     """re-run one recorded case (replay/C16-*.json) through the real pipeline and the judge"""
     setup_env()
+    if "setup_instance" in case["case"]:
+        setupopt.run(chk, only=case["case"]["setup_instance"])
+        return
     spec = case["case"]["spec"]
     if spec.get("slice") == "lattice":
         L = dict(spec)
